@@ -271,6 +271,33 @@ def ob_string_roundtrip(timeout=10):
     return result('string_roundtrip', check(goal, timeout), [f1, f2], None, goal)
 
 
+def ob_fresh(timeout=10):
+    """the converters return a new object on every call: no memoising decorator on a function that returns a mutable array / list, and the returned value does
+    not alias a parameter or module state (ownership analysis)"""
+    from pyvc.effects import Effects
+    m = Module.load(BP)
+    problems, funcs = [], []
+    for name in ('int_to_bvector', 'ints_to_bvectors', 'pauli_string_to_bvector', 'pauli_to_bsf', 'bvector_to_pauli_string', 'bvector_to_int', 'bvectors_to_ints', 'bs_prod', '_bs_prod_sparse', 'get_effective_error'):
+        f = m.funcs.get(name)
+        if f is None:
+            continue
+        funcs.append(f)
+        for d in f.node.decorator_list:
+            dn = ast.unparse(d.func if isinstance(d, ast.Call) else d)
+            if dn.split('.')[-1] in ('lru_cache', 'cache', 'cached_property', 'memoize'):
+                problems.append('%s is memoised (@%s) but returns a mutable object: callers that modify the result change what later calls return' % (name, dn))
+        try:
+            r = Effects().analyse(f)
+        except Unsupported:
+            continue
+        shared = sorted(a for a in r.ret.alias if a.startswith(('global:', 'cache:')))
+        if shared:
+            problems.append('%s may return an object owned by %s' % (name, shared))
+    return dict(verdict='refuted' if problems else 'discharged', model=dict(problems=problems) if problems else None, backend='pyvc-effects', seconds=0, kind='plain',
+                detail='; '.join(problems) or '%d converter / product functions return objects that are not shared between calls' % len(funcs),
+                functions=[dict(function=f.ref, sha256_16=f.sha) for f in funcs], transparent=[])
+
+
 def obligations(tier):
     obs = []
     for ca, cb in itertools.product(CLASSES_, repeat=2):
@@ -286,7 +313,7 @@ def obligations(tier):
     for w in ('symmetric', 'alternating', 'additive', 'mod2'):
         obs.append(Ob('C03.form.' + w, ob_form, dict(which=w), timeout=30))
     obs += [Ob('C03.string_to_bvector', ob_string_to_bvector, {}, timeout=60), Ob('C03.bvector_to_string', ob_bvector_to_string, {}, timeout=60),
-            Ob('C03.string_roundtrip', ob_string_roundtrip, {}, timeout=30)]
+            Ob('C03.string_roundtrip', ob_string_roundtrip, {}, timeout=30), Ob('C03.fresh_results', ob_fresh, {}, timeout=30, backend='pyvc-effects')]
     return obs
 
 
@@ -349,6 +376,21 @@ def native_converters(rnd, n):
     k = bp.bvector_to_int(v) if n else 0
     if n and not np.array_equal(bp.int_to_bvector(k, n), v):
         return 'int_to_bvector(bvector_to_int(v)) != v for %r' % s
+    if n:
+        # the converters are functions of their arguments: a result modified in place by the caller must not change what a later call returns
+        for fn_name, call in (('int_to_bvector', lambda: bp.int_to_bvector(k, n)), ('pauli_string_to_bvector', lambda: bp.pauli_string_to_bvector(s)), ('pauli_to_bsf', lambda: bp.pauli_to_bsf(s)),
+                              ('ints_to_bvectors', lambda: bp.ints_to_bvectors([k, k], n)[1])):
+            first = call()
+            keep = np.array(first, copy=True)
+            try:
+                first[...] = 1 - np.asarray(first)
+            except (TypeError, ValueError):
+                continue
+            if not np.array_equal(call(), keep):
+                return '%s returns an object shared between calls: after the caller modified an earlier result in place the same arguments give %s instead of %s' % (fn_name, np.asarray(call()).tolist(), keep.tolist())
+        two = bp.ints_to_bvectors([k, k], n)
+        if two[0] is two[1]:
+            return 'ints_to_bvectors returns the same array object for equal integers'
     wt = sum(c != 'I' for c in s)
     if bp.bsf_wt(np.asarray(v, dtype=int)) != wt or (n and bp.bsf_wt(csr_matrix(np.asarray(v, dtype='uint8').reshape(1, -1))) != wt):
         return 'bsf_wt disagrees with the number of non-identity Paulis of %r' % s
